@@ -22,6 +22,11 @@ pub enum Event {
     Unlink(u64),
     /// GC wrote the position of this (empty) queue.
     GcRecordPosition(String),
+    /// What the OS holds of file `file` right after its `FsyncFile` event (only when a probe
+    /// directory is set): length and FNV-1a hash of the content, read back through the path.
+    SyncedContent { file: u64, len: u64, fnv: u64 },
+    /// The WAL files present in the probe directory right after an `FsyncDir` event.
+    SyncedDir(Vec<u64>),
 }
 
 #[derive(Clone, Copy, Debug)]
@@ -38,6 +43,54 @@ thread_local! {
     static ENABLED: RefCell<bool> = const { RefCell::new(false) };
     static FAULT: RefCell<Option<FaultPlan>> = const { RefCell::new(None) };
     static IO_CALLS: RefCell<u64> = const { RefCell::new(0) };
+    static PROBE_DIR: RefCell<Option<std::path::PathBuf>> = const { RefCell::new(None) };
+}
+
+/// Directory to read back at every `FsyncFile` / `FsyncDir` event (observation only).
+pub fn set_probe_dir(dir: Option<std::path::PathBuf>) {
+    PROBE_DIR.with(|d| *d.borrow_mut() = dir);
+}
+
+fn fnv64(data: &[u8]) -> u64 {
+    let mut h: u64 = 0xcbf29ce484222325;
+    for b in data {
+        h ^= *b as u64;
+        h = h.wrapping_mul(0x100000001b3);
+    }
+    h
+}
+
+fn probe(event: &Event) -> Option<Event> {
+    let dir = PROBE_DIR.with(|d| d.borrow().clone())?;
+    match event {
+        Event::FsyncFile(file) => {
+            let content = std::fs::read(dir.join(format!("wal-{file:020}"))).ok()?;
+            Some(Event::SyncedContent {
+                file: *file,
+                len: content.len() as u64,
+                fnv: fnv64(&content),
+            })
+        }
+        Event::FsyncDir => {
+            let mut files: Vec<u64> = std::fs::read_dir(&dir)
+                .ok()?
+                .filter_map(|e| e.ok())
+                .filter(|e| e.file_type().map(|t| t.is_file()).unwrap_or(false))
+                .filter_map(|e| {
+                    let name = e.file_name().into_string().ok()?;
+                    let digits = name.strip_prefix("wal-")?;
+                    if digits.len() == 20 && digits.bytes().all(|b| b.is_ascii_digit()) {
+                        digits.parse().ok()
+                    } else {
+                        None
+                    }
+                })
+                .collect();
+            files.sort();
+            Some(Event::SyncedDir(files))
+        }
+        _ => None,
+    }
 }
 
 pub fn set_enabled(enabled: bool) {
@@ -46,7 +99,14 @@ pub fn set_enabled(enabled: bool) {
 
 pub fn record(event: Event) {
     if ENABLED.with(|e| *e.borrow()) {
-        LOG.with(|log| log.borrow_mut().push(event));
+        let probed = probe(&event);
+        LOG.with(|log| {
+            let mut log = log.borrow_mut();
+            log.push(event);
+            if let Some(p) = probed {
+                log.push(p);
+            }
+        });
     }
 }
 
